@@ -2,7 +2,9 @@
 //!
 //! ops (floats as hex bit patterns, points point-major):
 //! * `rcb <D> <iter> <tol f64> <threads> <plen> <nw> <w…> <np> <x f64 … np·D>`
-//!   out: `ok <ids>` | `lenmismatch` | `panic …` | `hang`
+//!   out: `ok <ids>` | `lenmismatch` | `panic …` | `hang`   (array pre-filled with `usize::MAX`)
+//! * `rcbreuse <D> <iter> <tol f64> <threads> <prev iter> <plen> <nw> <w…> <np> <x f64 … np·D>`
+//!   the same on an array that holds the ids of a previous call with `iter_count = prev iter`
 //! * `rib <D> <iter> <tol f64> <threads> <n> <w…> <orig f64 … n·D> <rot f64 … n·D>`
 //!   (`rot` = the points in the frame Rib builds, from the `obb_frame` hook in a 1-thread pool)
 //!   out: `ok <ids>` | `frame-mismatch` | `lenmismatch` | `panic …` | `hang`
@@ -29,7 +31,9 @@ const MAX_ORACLE_ITER: usize = 16;
 // ------------------------------------------------------------------ op lines
 
 enum Op {
-    Rcb { d: usize, iter: usize, tol: f64, threads: usize, plen: usize, ws: Vec<i64>, np: usize, xs: Vec<f64> },
+    /// `prev`: `None` = the array is pre-filled with `usize::MAX`; `Some(p)` = it holds the ids of a
+    /// previous `Rcb` call with `iter_count = p` on the same input (an array that is reused)
+    Rcb { d: usize, iter: usize, tol: f64, threads: usize, prev: Option<usize>, plen: usize, ws: Vec<i64>, np: usize, xs: Vec<f64> },
     Rib { d: usize, iter: usize, tol: f64, threads: usize, n: usize, ws: Vec<i64>, orig: Vec<f64>, rot: Vec<f64> },
     Reorder { d: usize, coord: usize, pivot: usize, n: usize, ws: Vec<i64>, xs: Vec<f32> },
     Split { d: usize, coord: usize, tol: f64, min: f32, max: f32, n: usize, ws: Vec<i64>, xs: Vec<f32> },
@@ -45,6 +49,20 @@ fn h32(x: f32) -> String {
 
 fn format_rcb(d: usize, iter: usize, tol: f64, threads: usize, plen: usize, ws: &[i64], np: usize, xs: &[f64]) -> String {
     let mut t: Vec<String> = vec!["rcb".into(), d.to_string(), iter.to_string(), h64(tol), threads.to_string()];
+    t.push(plen.to_string());
+    t.push(ws.len().to_string());
+    t.extend(ws.iter().map(|w| w.to_string()));
+    t.push(np.to_string());
+    t.extend(xs.iter().map(|x| h64(*x)));
+    t.join(" ")
+}
+
+/// `rcbreuse <D> <iter> <tol> <threads> <prev iter> <plen> <nw> <w…> <np> <x…>`: as `rcb`, on an array
+/// that still holds the ids of a previous call with `iter_count = prev iter` (same input, same pool).
+#[allow(clippy::too_many_arguments)]
+fn format_rcb_reuse(d: usize, iter: usize, tol: f64, threads: usize, prev: usize, plen: usize, ws: &[i64], np: usize, xs: &[f64]) -> String {
+    let mut t: Vec<String> =
+        vec!["rcbreuse".into(), d.to_string(), iter.to_string(), h64(tol), threads.to_string(), prev.to_string()];
     t.push(plen.to_string());
     t.push(ws.len().to_string());
     t.extend(ws.iter().map(|w| w.to_string()));
@@ -131,17 +149,21 @@ fn parse_op(op: &str) -> Option<Op> {
         return None;
     }
     match kind {
-        "rcb" => {
+        "rcb" | "rcbreuse" => {
             let iter = t.nat()?;
             let tol = t.f64()?;
             let threads = t.nat()?;
+            let prev = if kind == "rcbreuse" { Some(t.nat()?) } else { None };
+            if prev.map_or(false, |p| p > 16) {
+                return None;
+            }
             let plen = t.nat()?;
             let nw = t.nat()?;
             let ws = t.ints(nw)?;
             let np = t.nat()?;
             let xs = t.f64s(np.checked_mul(d)?)?;
             t.end()?;
-            Some(Op::Rcb { d, iter, tol, threads, plen, ws, np, xs })
+            Some(Op::Rcb { d, iter, tol, threads, prev, plen, ws, np, xs })
         }
         "rib" => {
             let iter = t.nat()?;
@@ -213,14 +235,19 @@ fn run_rcb<const D: usize>(
     iter: usize,
     tol: f64,
     threads: usize,
+    prev: Option<usize>,
     plen: usize,
     ws: Vec<i64>,
     xs: Vec<f64>,
 ) -> Caught<(St, Vec<usize>)> {
-    catch_timeout(30, move || {
+    catch_timeout(60, move || {
         let points: Vec<PointND<D>> = to_points::<D>(&xs);
+        // a cell the call fails to write keeps the sentinel, resp. the stale id of the previous call
         let mut ids = vec![usize::MAX; plen];
         let r = with_pool(pool_size(threads), || {
+            if let Some(p) = prev {
+                let _ = coupe::Rcb { iter_count: p, tolerance: tol }.partition(&mut ids, (points.clone(), ws.clone()));
+            }
             coupe::Rcb { iter_count: iter, tolerance: tol }.partition(&mut ids, (points, ws))
         });
         (status(r), ids)
@@ -480,14 +507,14 @@ pub fn run_op(ctx: &mut Ctx, op: &str) {
         return;
     };
     let (out, verdict, nontrivial): (String, Option<(String, String)>, bool) = match parsed {
-        Op::Rcb { d, iter, tol, threads, plen, ws, np, xs } => {
+        Op::Rcb { d, iter, tol, threads, prev, plen, ws, np, xs } => {
             let lengths_ok = plen == ws.len() && plen == np;
             let finite = xs.iter().all(|v| v.is_finite());
             let x: Vec<f32> = xs.iter().map(|v| *v as f32).collect();
             let res = if d == 2 {
-                run_rcb::<2>(iter, tol, threads, plen, ws, xs)
+                run_rcb::<2>(iter, tol, threads, prev, plen, ws, xs)
             } else {
-                run_rcb::<3>(iter, tol, threads, plen, ws, xs)
+                run_rcb::<3>(iter, tol, threads, prev, plen, ws, xs)
             };
             let (out, v, ok) = judge_partition(ctx, res, d, iter, lengths_ok, finite, &x);
             ctx.count(&format!("rcb_{}", out.split(' ').next().unwrap_or("")));
@@ -1162,6 +1189,112 @@ fn gen_large(ctx: &mut Ctx) {
         let dmax = col.iter().copied().fold(f32::NEG_INFINITY, f32::max);
         ctx.count("large_n_split");
         let op = format_split(d, coord, tol, dmin, dmax, &ws, &xs);
+        run_op(ctx, &op);
+    }
+    gen_large_leaves(ctx);
+    gen_reuse_small(ctx);
+}
+
+/// Large LEAVES and full-size passes. `rcb_recurse` stores the part id of a leaf through a parallel
+/// iterator and `rcb` runs several passes once per call over all n cells (collecting coordinates and
+/// weights, the sum, the bounding box, "part ids start from zero"): code that distributes such a
+/// pass over the pool (blocks of `len / threads`, chunks of 4096 or 8192, ...) only misbehaves when
+/// a leaf resp. the input is large RELATIVE TO THE POOL and not a multiple of the block size.
+/// So: iter_count 0, 1, 2 on large inputs, pools 2, 3, 5 besides 1, 4, 16, leaf lengths above
+/// 4096 x pool, n neither a multiple of the pool size nor of 8192, arrays pre-filled with
+/// `usize::MAX` and arrays reused from a previous call with more parts. An unwritten or stale cell
+/// shows as an id >= 2^iter, a same-point split or a tree that does not separate.
+fn gen_large_leaves(ctx: &mut Ctx) {
+    // (pool, iter_count, smallest n, largest n)
+    const QUICK: [(usize, usize, usize, usize); 9] = [
+        (2, 0, 8193, 20000),
+        (2, 1, 16400, 24000),
+        (3, 0, 12289, 24000),
+        (4, 0, 16385, 24000),
+        (5, 0, 20481, 24000),
+        (16, 1, 16385, 24000),
+        (1, 1, 16385, 24000),
+        (2, 2, 16385, 24000),
+        (1, 0, 8193, 24000),
+    ];
+    const THOROUGH: [(usize, usize, usize, usize); 22] = [
+        (16, 0, 70001, 70001),
+        (16, 1, 70001, 70001),
+        (16, 0, 140003, 140003),
+        (16, 1, 140003, 140003),
+        (16, 2, 140003, 140003),
+        (4, 1, 32769, 70001),
+        (4, 2, 65537, 140003),
+        (5, 1, 40961, 70001),
+        (5, 0, 20481, 140003),
+        (3, 1, 24577, 70001),
+        (3, 2, 49153, 140003),
+        (2, 1, 16385, 70001),
+        (2, 2, 32769, 140003),
+        (2, 0, 8193, 140003),
+        (3, 0, 12289, 140003),
+        (1, 1, 16385, 140003),
+        (1, 2, 16385, 140003),
+        (4, 3, 16385, 140003),
+        (16, 3, 16385, 140003),
+        (2, 4, 131077, 140003),
+        (5, 2, 16385, 140003),
+        (3, 3, 16385, 140003),
+    ];
+    let mut configs: Vec<(usize, usize, usize, usize)> = QUICK.to_vec();
+    if !ctx.quick() {
+        configs.extend_from_slice(&QUICK);
+        configs.extend_from_slice(&THOROUGH);
+        configs.extend_from_slice(&THOROUGH);
+    }
+    for (k, &(threads, iter, lo, hi)) in configs.iter().enumerate() {
+        let mut n = lo + ctx.rng.usize(hi - lo + 1);
+        while n % threads.max(2) == 0 || n % 8192 == 0 || n % 4096 == 0 {
+            n += 1;
+        }
+        // the biggest inputs in 2-D only (the op line carries every coordinate)
+        let d = if n > 80000 { 2 } else { 2 + (k % 2) };
+        let shape = k % 3;
+        let tol = pick_tol(&mut ctx.rng);
+        let xs = gen_large_points(&mut ctx.rng, shape, n, d);
+        let ws = if ctx.rng.chance(1, 2) { vec![1i64; n] } else { gen_weights(&mut ctx.rng, 1, n) };
+        ctx.count("large_leaf_rcb");
+        ctx.count(&format!("large_leaf_threads_{}", threads));
+        ctx.count(&format!("large_leaf_iter_{}", iter));
+        ctx.count(match n {
+            0..=24000 => "large_leaf_n_upto_24000",
+            24001..=70001 => "large_leaf_n_upto_70001",
+            _ => "large_leaf_n_upto_140003",
+        });
+        let op = if k % 2 == 0 {
+            ctx.count("large_leaf_prefill_sentinel");
+            format_rcb(d, iter, tol, threads, n, &ws, n, &xs)
+        } else {
+            // stale ids of a previous call with more parts
+            ctx.count("large_leaf_prefill_reuse");
+            let prev = iter + 2 + ctx.rng.usize(2);
+            format_rcb_reuse(d, iter, tol, threads, prev, n, &ws, n, &xs)
+        };
+        run_op(ctx, &op);
+    }
+}
+
+/// Reused arrays below 4096 points: compared with the model (which claims that the previous
+/// contents of the array are irrelevant).
+fn gen_reuse_small(ctx: &mut Ctx) {
+    for _ in 0..ctx.budget(30, 1500) {
+        let d = 2 + ctx.rng.usize(2);
+        let iter = ctx.rng.usize(5);
+        let prev = ctx.rng.usize(7);
+        let tol = pick_tol(&mut ctx.rng);
+        let threads = *ctx.rng.pick(&[1usize, 2, 3, 4, 5, 16]);
+        let n = pick_n(&mut ctx.rng, 1500);
+        let shape = ctx.rng.usize(7);
+        let xs = gen_points(&mut ctx.rng, shape, n, d);
+        let wshape = pick_weight_shape(&mut ctx.rng);
+        let ws = gen_weights(&mut ctx.rng, wshape, n);
+        ctx.count("reuse_small_rcb");
+        let op = format_rcb_reuse(d, iter, tol, threads, prev, n, &ws, n, &xs);
         run_op(ctx, &op);
     }
 }
